@@ -31,6 +31,11 @@ func (pass *SanitizeEnumMemberNames) sanitizeEnumMember(member ast.EnumValue) as
 		member.Name = "None"
 	}
 
+	// a member without a name is named after its value, as parsers do.
+	if member.Name == "" && member.Value != nil {
+		member.Name = fmt.Sprintf("%v", member.Value)
+	}
+
 	if member.Name == "" {
 		return member
 	}
